@@ -159,7 +159,7 @@ pub fn check_aidx(c: &AidxCase) -> Verdict {
         Ok(_) => return edit_class(Verdict::pass().class("ref-consistent"), &c.edit),
     }
     if c.chunked {
-        let Ok(dir) = tempfile::tempdir() else { return vacuous("tempdir") };
+        let Ok(dir) = crate::scratch_dir() else { return vacuous("tempdir") };
         let p = dir.path().join("x.index");
         if std::fs::write(&p, &m).is_err() {
             return vacuous("write");
@@ -237,7 +237,7 @@ pub fn check_lru(c: &LruCase) -> Verdict {
     }
     let mut v = Verdict::pass().nontrivial(true).class(kind);
     if c.disk {
-        let Ok(dir) = tempfile::tempdir() else { return vacuous("tempdir") };
+        let Ok(dir) = crate::scratch_dir() else { return vacuous("tempdir") };
         let p = lru_file::lru_file_path(dir.path(), a.generation);
         if std::fs::write(&p, &m).is_err() {
             return vacuous("write");
@@ -441,7 +441,7 @@ pub fn check_idx(c: &ArtEdit) -> Verdict {
     if m == a.bytes {
         return edit_class(Verdict::pass().class("no-protected-change"), &c.edit);
     }
-    let Ok(dir) = tempfile::tempdir() else { return vacuous("tempdir") };
+    let Ok(dir) = crate::scratch_dir() else { return vacuous("tempdir") };
     let p = dir.path().join(&a.fname);
     if std::fs::write(&p, &m).is_err() {
         return vacuous("write");
